@@ -403,11 +403,25 @@ func (f *fragment) openStorage(unmarshalData bool) error {
 		// *either* or *both* of old and new storage data might be in use.
 		// So we call the thing that should unconditionally unmap both of them...
 		if err := f.storage.UnmarshalBinary(data); err != nil {
-			_, e2 := f.storage.RemapRoaringStorage(nil)
-			if e2 != nil {
-				return fmt.Errorf("unmarshal storage: file=%s, err=%s, clearing old mapping also failed: %v", f.file.Name(), err, e2)
+			torn, ok := errors.Cause(err).(*roaring.TornOpLogError)
+			if ok {
+				// The process was killed while appending the last op log
+				// entry. Every complete entry has been applied; cut the
+				// partial one off so that new entries follow the last
+				// complete one.
+				f.Logger.Printf("fragment: truncating torn op log entry: path=%s, size=%d, valid=%d", f.path, len(data), torn.ValidLength)
+				if e := f.file.Truncate(torn.ValidLength); e != nil {
+					err = fmt.Errorf("%s, truncating torn op log: %s", err, e)
+					ok = false
+				}
 			}
-			return fmt.Errorf("unmarshal storage: file=%s, err=%s", f.file.Name(), err)
+			if !ok {
+				_, e2 := f.storage.RemapRoaringStorage(nil)
+				if e2 != nil {
+					return fmt.Errorf("unmarshal storage: file=%s, err=%s, clearing old mapping also failed: %v", f.file.Name(), err, e2)
+				}
+				return fmt.Errorf("unmarshal storage: file=%s, err=%s", f.file.Name(), err)
+			}
 		}
 		f.rowCache = &simpleCache{make(map[uint64]*Row)}
 		f.ops, f.opN = f.storage.Ops()
